@@ -425,6 +425,10 @@ func matchOp(root interface{}, path, op string, operand interface{}) (bool, erro
 						return false, ErrOutside
 					}
 				} else {
+					if _, isArr := el.(bson.A); isArr {
+						// an array inside the array: outside the agreement domain
+						return false, ErrOutside
+					}
 					ed, isD := el.(bson.D)
 					if !isD {
 						continue
